@@ -2,7 +2,9 @@ prop("C04", pkg="c04",
      rule="Each case is drawn with pgregory.net/rapid: one struct type from harness/tgen (reflect.StructOf over a serialisable descriptor: 0-10 own fields "
           "(64-140 for the 'wide' shape), ids from seven layout classes - consecutive, gaps <= 15, one gap = 16, gaps > 16, id range > 64, > 128, ids up to "
           "32767 - declared in ascending, descending or shuffled order; field kinds bool, int8..int64, int, float64, float32, string, []byte, lists, maps, "
-          "sets (map[K]struct{}), structs, *struct, *scalar, **bool, embedded structs and *structs, union structs, named corpus types incl. a recursive one; "
+          "sets (map[K]struct{}), structs, *struct, *scalar, **bool, union structs, named corpus types incl. a recursive one; 22 % of the top-level types (and some nested "
+          "ones) carry 1-2 chains of ANONYMOUS embedding 1..4 levels deep (30/20/30/20 %), each level by value or through a pointer, with 2-3 tagged sibling fields at the "
+          "deepest level and 1-2 fields at every intermediate level, whose values are distinct and non-zero (labels embed-depth=1..4; depth >= 3 in ~5 % of all types); "
           "tags required / optional / enum), 2-5 value recipes for it (boundary-weighted integers, special float bit patterns, list lengths 0/1/14/15/16/>16/127+), "
           "and a protocol schedule. Every value is put through Marshal/Unmarshal and a fresh Encoder/Decoder for all three protocols, through one Encoder and one "
           "Decoder Reset before each value across the scheduled protocols, and through one Encoder/Decoder over a single stream. The two defects found "
@@ -13,7 +15,7 @@ prop("C04", pkg="c04",
      thorough=dict(shards=16, scale=4, timeout=3000),
      technique="property-based testing (rapid) with generated Go struct types: round trip, reused-vs-fresh codec and cross-protocol metamorphic oracles under a "
                "reflection-based equality modulo nil/empty collections",
-     level_text="Exploration: ~0.19 M generated (type, values, codec schedule) cases per quick run (~0.77 M thorough, with up to 10 values per type) are round-tripped through all three protocols "
+     level_text="Exploration: ~0.16 M generated (type, values, codec schedule) cases per quick run (~0.64 M thorough, with up to 10 values per type) are round-tripped through all three protocols "
                 "and every codec mode; any value that does not come back equal (nil and empty collections identified, floats by bit pattern), any byte difference "
                 "between a reused and a fresh Encoder, any disagreement between protocols, and any panic is reported with the shrunk case. Nothing is proved "
                 "about types or values outside the generator's bounds (nesting depth <= 3 (4 thorough), <= 140 fields, collections <= 130 elements).",
